@@ -100,10 +100,49 @@ fn dispatch(req: &Req) -> Out {
 
 pub fn exec(req: &Req) -> Resp {
     install_hook();
-    match catch_unwind(AssertUnwindSafe(|| dispatch(req))) {
+    #[cfg(curve25519_dalek_verif)]
+    curve25519_dalek::verif_hooks::monitor_reset_violation();
+    let r = match catch_unwind(AssertUnwindSafe(|| dispatch(req))) {
         Ok(Out::Ok(b)) => Resp::Ok(b),
         Ok(Out::Rej) => Resp::Rej,
         Ok(Out::Unknown) => Resp::Unsup,
         Err(_) => Resp::Panic(LAST_PANIC.with(|p| p.borrow().clone())),
+    };
+    // Bound monitors of the vector field code (C11): a documented lane precondition violated
+    // anywhere during this request is reported like a panic, whatever the functional result was.
+    #[cfg(curve25519_dalek_verif)]
+    {
+        use curve25519_dalek::verif_hooks as h;
+        if let Some((site, value)) = h::monitor_violation() {
+            h::monitor_reset_violation();
+            return Resp::Panic(format!("bound monitor: documented precondition of {} violated (limb value {})", h::SITE_NAMES[site], value));
+        }
     }
+    r
+}
+
+/// per-site monitor statistics since process start: (site name, calls, max even limb, max odd limb,
+/// documented exclusive bounds) - reported in the evidence as "observed vs allowed"
+pub fn monitor_report() -> serde_json::Value {
+    #[cfg(curve25519_dalek_verif)]
+    {
+        use curve25519_dalek::verif_hooks as h;
+        let st = h::monitor_stats();
+        let mut v = vec![];
+        for i in 0..h::NSITES {
+            if st[i].0 > 0 {
+                let (be, bo) = h::SITE_BOUNDS[i];
+                v.push(serde_json::json!({
+                    "site": h::SITE_NAMES[i], "calls": st[i].0,
+                    "max_even_limb": st[i].1, "max_odd_limb": st[i].2,
+                    "bound_even_exclusive": be, "bound_odd_exclusive": bo,
+                    "headroom_used_even": (st[i].1 as f64) / (be as f64),
+                    "headroom_used_odd": (st[i].2 as f64) / (bo as f64),
+                }));
+            }
+        }
+        return serde_json::Value::Array(v);
+    }
+    #[allow(unreachable_code)]
+    serde_json::Value::Null
 }
